@@ -34,6 +34,11 @@ SPECS = {
     "optional_tail": "<start> ::= <StdOut:a> (<StdIn:b> <StdOut:c>?)?\n",
     "exchange_loop": "<start> ::= <x>+ <StdOut:d>\n<x> ::= <StdOut:a> <StdIn:c> <StdOut:e>\n",
     "optional_exchange": "<start> ::= <StdOut:a> <y>? <StdOut:d>\n<y> ::= <StdIn:c> <StdOut:e>\n",
+    # the same non-message nonterminal reached more than once in one forecast (skippable first, then mandatory; in two branches)
+    "shared_rule_retry": "<start> ::= <StdOut:a> <retry>{0,2} <resp> <StdOut:d>\n<retry> ::= <resp> <StdOut:e>\n<resp> ::= <StdIn:b> | <StdIn:c>\n",
+    "shared_rule_option_then_mandatory": "<start> ::= <StdOut:a> <x>? <x> <StdOut:d>\n<x> ::= <StdIn:b> <StdOut:c>?\n",
+    "shared_rule_in_branches": "<start> ::= <StdOut:a> (<x> <StdOut:d> | <StdOut:c> <x> <StdOut:e>) <x>?\n<x> ::= <StdIn:b>\n",
+    "same_type_other_direction": "<start> ::= <StdOut:a> (<StdOut:b> <StdIn:c> | <StdIn:b> <StdOut:c>) <StdOut:d>\n",
 }
 PARTY_DEFS = '''
 class Client(FandangoParty):
